@@ -288,6 +288,7 @@ type treeExec struct {
 	named    map[int]string
 	lastCall map[int]*flamego.Route
 	curHdr   map[int][]hdrC // call -> constraints in force
+	emptyHdr bool           // send headers whose value is "" as present-but-empty instead of leaving them out
 	last     serveOut       // what the handler of the current request observed (out of band: lossless, works for HEAD)
 }
 
@@ -451,8 +452,13 @@ func (x *treeExec) serve(m, raw string, hdr map[string]string) (o serveOut) {
 	}()
 	h := http.Header{}
 	for k, v := range hdr {
-		if k != "_" && v != "" {
+		if k == "_" {
+			continue
+		}
+		if v != "" {
 			h.Set(k, v)
+		} else if x.emptyHdr {
+			h[http.CanonicalHeaderKey(k)] = []string{""} // the header is PRESENT with an empty value
 		}
 	}
 	if x.via == "tree" {
@@ -859,6 +865,10 @@ func (x *treeExec) run(tr *traceWriter) {
 				for pi, p := range treeUniv.Paths {
 					for _, lead := range leads {
 						raw := lead + strings.Join(p, "/")
+						if hk == "none" {
+							hdr["K"] = ""
+							x.emptyHdr = pi%2 == 1 // absent and present-but-empty must both leave the route invisible
+						}
 						o := x.serve(m, raw, hdr)
 						exp := int(win[pi] - '0')
 						treeStats.Compared++
@@ -874,8 +884,9 @@ func (x *treeExec) run(tr *traceWriter) {
 		}
 	}
 	// (2) explicit requests
-	for _, rq := range c.Reqs {
+	for qi, rq := range c.Reqs {
 		raw := decBytes(rq.Raw)
+		x.emptyHdr = qi%2 == 1
 		o := x.serve(rq.M, raw, rq.H)
 		emitServe(rq.M, raw, rq.H, o)
 	}
